@@ -293,4 +293,26 @@ CLAIMED["C19"] = {
                  "real findPath/newRoute/getEdge + predicate on every returned route",
 }
 
+CLAIMED["C17"] = {
+    "design_ref": "DESIGN.md §4 C17, notes/C17.md",
+    "text": "Coq theorems for all HTLC-free channel views, fees, script pairs, payer overrides and sequence/locktime "
+            "options: both parties derive the identical close transaction or the same error; each output equals the "
+            "owner's exact balance (msat truncated, commit fee + anchors credited to the opener, fee charged to the "
+            "payer), is present iff it reaches the owner's dust limit, BIP69 order; refused iff the payer cannot afford "
+            "the fee; outputs+fee <= capacity with at most 1 sat of truncation loss when nothing is trimmed. Legacy fee "
+            "negotiation between two honest closers with ideal fees >= 100 sat within cap/affordability terminates on a "
+            "common, doubly-signed fee within n+4 messages where 100*max*1000^n <= 129*min*1091^n (<= 8*log2(max/min)+4); "
+            "taproot in 3; below 10 sat non-termination is proved (witness replayed on real ChanClosers each run). Model "
+            "tied to lnwallet/chancloser by differential runs: pure-function grids, real CreateCloseProposal/"
+            "CompleteCooperativeClose on 7 channel types (ECDSA and MuSig2 signatures, script-engine verdict, byte "
+            "equality of both sides' txs), and two real ChanClosers negotiating over real channels.",
+    "note": "Trusted: Coq kernel, harness, python driver. Signatures/sighash/serialisation/script engine not modelled "
+            "(exercised on every channel case; one Section hypothesis verify-sign). Negotiation machine abstracts the "
+            "channel as 'proposal succeeds iff fee <= opener balance + credit'. RBF-coop: option set modelled and driven "
+            "on the wallet calls; protofsm state machine, aux/extra outputs, custom sort, cached-ClosingSigned path not "
+            "modelled. No T1 translator (arith functions tied by T2 grids).",
+    "technique": "Coq proof (symmetry/algebra, potential-function termination measure, cycle invariant for the "
+                 "refutation) + differential correspondence on real channels and ChanClosers + implementation-side predicates",
+}
+
 NOT_CLAIMED = {}
